@@ -25,7 +25,7 @@ EXPLANATION = (
     "be unreachable except through sites dominated by a test of a flag that stop() sets first; a flag written by "
     "stop() and read nowhere is reported (contradiction)."
 )
-SHARED = [('C01', ['R7'], 'stopping the producer fails every outstanding send'), ('C09', ['R1'], 'a threshold met while a batch is in flight takes effect the moment that batch resolves')]
+SHARED = [('C01', ['R7'], 'stopping the producer fails every outstanding send'), ('C09', ['R1'], 'a threshold met while a batch is in flight takes effect the moment that batch resolves'), ('C01', ['R3'], 'cancelling one send only detaches that caller')]
 ASSUMPTIONS = [
     "Twisted: Deferred.cancel() on an unfired chain runs its remaining on-both/errback stages synchronously",
     "LoopingCall calls its function every period until stopped",
